@@ -7,6 +7,7 @@ def dispatch : List String → String
   | "wrap" :: ts => TifaWrapper.handle ts
   | "dispatch" :: ts => TifaWrapper.handleDispatch ts
   | "rows" :: ts => TifaWrapper.handleRows ts
+  | "fields" :: ts => TifaWrapper.handleFields ts
   | _ => "bad-request"
 
 def main : IO Unit := driverMain dispatch
